@@ -755,6 +755,79 @@ def explore_paths(case):
     return res
 
 
+def explore_gen_threads(case):
+    """two generators write two equation sets into two directories from two threads, every interleaving of the generators' Python statements
+    with at most one preemption (thorough: two): each directory holds what the generator writes alone (the working directory, a module-level
+    option table or file name would be shared)"""
+    from .. import threads
+    res = core.Result()
+    a, b = case["pair"]
+    Es = equation_sets()
+    tmp = os.path.realpath(tempfile.mkdtemp(prefix="c09th_", dir=os.environ.get("VERIF_SCRATCH") or None))
+    cwd0 = os.getcwd()
+    quiet = contextlib.redirect_stdout(io.StringIO())
+    quiet.__enter__()
+    try:
+        os.chdir(tmp)
+        ref_a = _generate(Es[a], os.path.join(tmp, "ref_a"), {})
+        ref_b = _generate(Es[b], os.path.join(tmp, "ref_b"), dict(with_header=False))
+        counter = [0]
+
+        def gen(E, opts, tag, relative):
+            def call():
+                counter[0] += 1
+                d = "%s_%d" % (tag, counter[0])
+                dest = d if relative else os.path.join(tmp, d)
+                if E["kind"] == "single":
+                    (nm, fns), = E["sets"].items()
+                    E["gen"](fns, filename=E["files"][nm], dest_dir=dest, **opts)
+                else:
+                    E["gen"](E["sets"], dest, **opts)
+                out = {}
+                for fn in sorted(os.listdir(os.path.join(tmp, d))):
+                    out[fn] = open(os.path.join(tmp, d, fn)).read()
+                return out
+            return call
+        for relative in (False, True):
+            fa, fb = gen(Es[a], {}, "a", relative), gen(Es[b], dict(with_header=False), "b", relative)
+            for choices, results, npts, capped in threads.explore([fa, fb], ("cyecca/codegen.py", "cyecca/models/", "cyecca/estimate/attitude/algorithms/__init__.py"),
+                                                                  1 if case["tier"] == "quick" else 2, max_runs=(400 if case["tier"] == "quick" else 5000)):
+                if capped:
+                    res.counters["thread_schedules_capped"] += 1
+                    break
+                res.count("evaluations")
+                res.count("schedules")
+                res.count("programs", 2)
+                res.nontrivial.add(hash((a, b, relative, tuple(choices))))
+                res.counters["max_scheduling_points"] = max(res.counters["max_scheduling_points"], npts)
+                bad = [k for k, (r_, want) in enumerate(zip(results, (ref_a, ref_b))) if r_ is None or r_[0] != "ok" or r_[1] != want]
+                if bad:
+                    k = bad[0]
+                    res.fail(site=(a, b)[k], clause="generation_independent_of_a_concurrent_generation", cls="relative" if relative else "absolute",
+                             detail=dict(pair=[a, b], thread=k, relative_destination=relative, schedule=choices, outcome=(results[k][1] if results[k] and results[k][0] != "ok" else "files differ from the generation alone")),
+                             sub="threads", case=case)
+                    break
+            for d in os.listdir(tmp):
+                if d[:2] in ("a_", "b_"):
+                    shutil.rmtree(os.path.join(tmp, d), ignore_errors=True)
+    finally:
+        quiet.__exit__(None, None, None)
+        os.chdir(cwd0)
+        shutil.rmtree(tmp, ignore_errors=True)
+    res.samples.append(dict(thread_pair=[a, b]))
+    return res
+
+
+class _GenTh:
+    chunks = 1
+
+    def cases(self, tier, seed):
+        return [dict(sub="threads", pair=list(p), tier=tier) for p in (("rdd2", "bezier"), ("estimator", "mr_ref_traj"), ("rdd2_loglinear", "estimator_generic"), ("rdd2", "rdd2"))]
+
+    def run(self, case):
+        return explore_gen_threads(case)
+
+
 class _Paths:
     chunks = 1
 
@@ -800,5 +873,5 @@ class _Sub:
         return explore(case)
 
 
-SUBCHECKS = {"together": _Tog(), "env": _Env(), "paths": _Paths(), "gen": _Sub(), "seq": _Seq(), "script": _Script()}
-REPLAY = {"together": lambda c: explore_together(c).fails, "gen": lambda c: explore(c).fails, "seq": lambda c: explore_sequence(c).fails, "script": lambda c: explore_script(c).fails, "env": lambda c: explore_env(c).fails, "paths": lambda c: explore_paths(c).fails}
+SUBCHECKS = {"together": _Tog(), "env": _Env(), "paths": _Paths(), "threads": _GenTh(), "gen": _Sub(), "seq": _Seq(), "script": _Script()}
+REPLAY = {"together": lambda c: explore_together(c).fails, "gen": lambda c: explore(c).fails, "seq": lambda c: explore_sequence(c).fails, "script": lambda c: explore_script(c).fails, "env": lambda c: explore_env(c).fails, "paths": lambda c: explore_paths(c).fails, "threads": lambda c: explore_gen_threads(c).fails}
